@@ -242,9 +242,17 @@ func TestVerifC08(t *testing.T) {
 					s.Go("load", proc, func() {
 						err = reader.LoadIndex(ctx, restic.NoopTerminalCounterFactory)
 					})
+					supersede := vanish && tp.Choose(2) == 0
+					var replacement restic.ID
+					var repErr error
 					if vanish {
-						s.Go("vanish", nil, func() {
+						s.Go("vanish", proc, func() {
 							simrt.Park("vanish", victim.Str(), nil)
+							if supersede {
+								// what prune / repair index do: a new index file with the same entries is stored first,
+								// then the old one is removed
+								replacement, repErr = saveIndex(model[victim])
+							}
 							store.Del(backend.Handle{Type: backend.IndexFile, Name: victim.String()})
 							s.Count("fault:index-file-vanished-during-load")
 						})
@@ -260,6 +268,10 @@ func TestVerifC08(t *testing.T) {
 						return
 					}
 					if vanish {
+						if supersede && repErr == nil && !replacement.IsNull() {
+							model[replacement] = model[victim]
+							s.Count("fault:index-file-superseded-during-load")
+						}
 						delete(model, victim)
 					}
 					after := expected(model)
